@@ -24,3 +24,7 @@ add('C17', 'exploration', 'model-based fuzzing of one real endpoint by a scripte
     'All words of up to 2/3 out-of-place messages in each protocol phase plus generated longer scripts are played against a real ContactHandler; escaping exceptions are bucketed by (type, innermost repo frame), each listed out-of-place message must be answered by MSG_REJECT/SESS_TERM/close, delivered data is compared with a reference reassembly and the endpoint own transfers must still complete.',
     'Messages are delivered whole (chunking is C07); adversarial ids never collide with own ids; answers are only required for the cases the property lists.',
     'DESIGN.md section 3 C17')
+add('C14', 'exploration', 'property-based testing on a virtual clock with deadline-directed event placement + exhaustive parameter grid',
+    'A real endpoint runs on a virtual millisecond clock against a scripted peer; traffic, user calls and silence are placed at deadline-1ms/deadline/deadline+1ms of each timer, ACK delays drive the segment-size controller, and the timestamped octet log is checked against the negotiated parameters; the keepalive^2 x idle grid is enumerated.',
+    'Virtual time (no wall clock); ACKs at least 1 ms after the segment when the controller is on; the closing clause is only judged when an idle time is configured.',
+    'DESIGN.md section 3 C14')
